@@ -12,7 +12,7 @@ claimed = {
 claimed.update({
  "C08": ("proof", "Per emitting site of the Bash converter the emitted line, as an SMT string with symbolic operands, is proved equal to a template in which the operand sits inside one pair of double quotes (assignment, concatenation, comparison, print, call argument, parameter binding, return register, substring, exists/read path), input() reads raw lines, the lexer's char() returns the byte itself. The sites where the property does NOT hold on the unchanged tree are stated from the property, fail with a counter-model, and are listed as known findings with witnesses (no escaping of double-quote specials, echo options, eval-based slice stores and write()).", "§5 C08"),
  "C11": ("other", "Proved (unbounded): char() returns exactly the byte, Tokenize index safety / progress facts, no blank or comment token is ever appended, the result ends with an EOF token on success, the string scanner gives up only at the end of the input, CRLF normalisation is exactly ReplaceAll(\\r\\n -> \\n). The functional longest-match specification and the row/column bookkeeping are NOT proved (they need a model of Go's regexp semantics) and no bounded stand-in is claimed.", "§5 C11"),
- "C12": ("other", "Single-run sufficient conditions only: CRLF normalisation is exact, blanks and comments never reach the token list, a declaration consumes values at most once. The two-run theorem (same bytes for every re-layout) is argued in DESIGN.md, not machine-checked; newline tolerance of the import group / switch header is a known gap.", "§5 C12"),
+ "C12": ("other", "Single-run sufficient conditions only: CRLF normalisation is exact, blanks and comments never reach the token list, a declaration consumes values at most once and parses initial values only when something other than a newline or the end of the file follows (call-site assertion). The two-run theorem (same bytes for every re-layout) is argued in DESIGN.md, not machine-checked; newline tolerance of the import group / switch header is a known gap.", "§5 C12"),
  "C14": ("other", "Single-run sufficient conditions: Transpile creates exactly one fresh parser per run before parsing, the transpiler object keeps nothing but the converter, parser.New starts with an empty state, and every loop that ranges over a map (all packages except the CLI) passes a conservative map-order-independence analysis (its body only writes the map entry of the current key). The inference to byte-identical output across runs is argued, not machine-checked.", "§5 C14"),
  "C19": ("proof", "Contracts on tsh.go with os/filepath uninterpreted and logged: parseOptions returns only with non-empty in/out/converters (every other exit is a panic = non-zero status); main performs exactly one Transpile and one os.WriteFile per requested target, the write follows a successful Transpile of the same target, a failed write or transpile panics before anything else is written for that target, the bytes are the library's result and the file name is Base(in) without Ext(in) plus the target's extension. Two genuine defects were repaired (singleton converters, ignored write error).", "§5 C19"),
  "C13": ("proof", "Zero-annotation safety sweep over every function of lexer, parser, transpiler, both converters and tsh.go: each index/slice bound, nil map write, nil dereference, single-value type assertion, division and reachable panic is a named obligation; those discharged on the unchanged tree (the ledger, about 1500 of 1550; exact numbers in the evidence file) are what is claimed, using receiver invariants (parser index non-negative and call-graph map present, transpiler has a converter) and a type invariant of the parser context (maps present, inside a scope) that are themselves proved at every call; the remaining ones need AST well-formedness facts (children of nodes are non-nil, identifiers are non-empty) that are not stated and are reported as undecided, never as proved.", "§5 C13"),
@@ -21,7 +21,7 @@ claimed.update({
  "C09": ("proof", "Linking obligations on the parser: alias lookups find nothing for an alias that was never imported and addImport binds exactly the alias; imported top-level statements are never dropped by the duplicate-suppression loop (counting invariant); the merge of an imported file's call graph keeps every imported edge (nested loop invariants over the map heap, for any number of callers and callees); getUsedFuncs returns a set closed under callees-of-callees (event-log induction over the recursive calls) and leaves the call graph untouched. Prefix naming (7-hex-digit content hash) and clean-up of unreachable definitions in cleanProgram are not under contract.", "§5 C09"),
  "C04": ("proof", "Order and multiplicity of evaluation proved on the transpiler: every evaluate* function has ghost event-log postconditions (calls/arg/res/seq) stating that each operand is passed to evaluateExpression exactly once, in source order, with its value used, before the converter call that consumes it; all if/else-if conditions before IfStart; for: init, ForStart, guarded increment, condition, ForCondition, body, ForEnd. Loops are handled with invariants over the log, for any number of operands/branches.", "§5 C04"),
  "C05": ("proof", "Go-side proof for the Batch converter: operator tables (IF comparison words, quoting of string vs numeric operands, doubled %), fresh helpers, routing of lines into function blocks, and the label allocator invariants (no live loop/if/end label equals a label handed out later, live labels pairwise distinct, continue/break/ForEnd target the innermost open loop). cmd.exe's meaning of the templates is trusted.", "§5 C05"),
- "C18": ("other", "Only the transpiler half so far: a call chain leads to exactly one converter AppCall with the value-used flag. The word-level quoting clause on bash.AppCall is not yet under contract.", "§5 C18"),
+ "C18": ("other", "Transpiler: a call chain leads to exactly one converter AppCall with the value-used flag and every argument value is used. Both converters' AppCall under contract: command k is written as its name followed by its words in argument order, the commands are joined left to right by ' | ' (nested loop invariants with the Join calls as ghost events, any number of commands and arguments), the statement form emits exactly that line, the Bash value form captures $(pipeline) into a fresh helper and $? into the next one and returns the two references. The clause the property itself demands - every argument is one double-quoted word - is stated, fails on the unchanged tree and is a known finding with a witness (an always-quote repair breaks std/os.tsh and the test suite). What bash then does with the line is trusted.", "§5 C18"),
 })
 notes = {
  "C08": "Trusted: Bash quoting rules (manual 3.1.2). Batch data paths are not claimed under C08. The six failing clauses are known findings (known_findings.txt), not proved.",
@@ -35,7 +35,7 @@ notes = {
  "C09": "Trusted: os/filepath/sha256 uninterpreted; acyclicity of the call graph (recursion through getUsedFuncs is handled modularly, termination is not proved).",
  "C04": "Trusted: a helper reference (${_hN}) can be expanded any number of times without effect; the parser's AST keeps one node per source operand (parser-side clause pending); govc; solvers.",
  "C05": "Trusted: cmd.exe semantics (parse-time %, run-time !, label search, IF numeric vs string, call/exit /B, set /A). Pinned helper routine bodies of ProgramEnd are not yet under contract.",
- "C18": "Trusted: Bash word splitting/quoting rules; bash.AppCall and batch.AppCall bodies are only covered by the safety sweep so far.",
+ "C18": "Trusted: Bash/cmd word splitting, pipes and $? (shell facts). The order in which the transpiler walks the chain (a linked list of parser.AppCall) is not under contract; the Batch capture helper body is not either. One known finding (bare arguments).",
  "C01": "Trusted: Bash semantics of $(( )), [ ], $(if ..), while/break/continue, echo, exit (spec/shell_facts.md); govc itself; SMT solvers; library models (Sprintf, Join, Itoa). Parser precedence chain and transpiler call order are covered by C06/C04 checks as they come online.",
  "C02": "Trusted: Bash semantics of functions, local, positional parameters, return; assumption A2 (FuncCall writes the quoted arguments through the caller's slice).",
  "C03": "Trusted: Bash arrays, eval-based indirect expansion, ${v:o:l}, ${#v}; pinned helper bodies are compared with a reviewed constant, their meaning is not proved.",
